@@ -24,6 +24,25 @@ type C18Case struct {
 	Kinds  []int    `json:"kinds"`  // per block: 0 uuid.NewV4, 1 AuthnRequest, 2 LogoutRequest, 3 LogoutResponse
 	SPs    int      `json:"sps"`
 	Chunk  int      `json:"chunk"` // the substituted reader returns at most this many bytes per Read (0 = unlimited)
+	Cfg    int      `json:"cfg"`   // configuration variant of the first service provider (the others follow on)
+}
+
+// c18SP: service provider configurations that change the SHAPE of the built messages (number of root
+// attributes and children): every optional setting on / off in the combinations of a 5-bit counter.
+func c18SP(i int) *saml2.SAMLServiceProvider {
+	c := h.BaseSP()
+	c.ForceAuthn = i&1 != 0
+	c.IsPassive = i&2 != 0
+	if i&4 != 0 {
+		c.RAC = &h.RAC{Comparison: "exact", Contexts: []string{"urn:a", "urn:b"}}
+	}
+	if i&8 != 0 {
+		c.NameIDFormat = saml2.NameIdFormatPersistent
+	}
+	if i&16 != 0 {
+		c.SPIssuer, c.SLO = "", ""
+	}
+	return c.Build()
 }
 
 type replayReader struct {
@@ -82,7 +101,7 @@ func expectID(b []byte) string {
 
 func genC18(t *rapid.T) C18Case {
 	n := rapid.IntRange(1, 40).Draw(t, "n")
-	c := C18Case{SPs: rapid.IntRange(1, 3).Draw(t, "sps"), Chunk: rapid.SampledFrom([]int{0, 0, 1, 5, 7, 15}).Draw(t, "chunk")}
+	c := C18Case{SPs: rapid.IntRange(1, 3).Draw(t, "sps"), Chunk: rapid.SampledFrom([]int{0, 0, 1, 5, 7, 15}).Draw(t, "chunk"), Cfg: rapid.IntRange(0, 31).Draw(t, "cfg")}
 	for i := 0; i < n; i++ {
 		var b []byte
 		switch rapid.IntRange(0, 3).Draw(t, "blockKind") {
@@ -107,8 +126,9 @@ func checkC18(c C18Case) h.Outcome {
 	}
 	sps := make([]*saml2.SAMLServiceProvider, c.SPs)
 	for i := range sps {
-		sps[i] = h.BaseSP().Build()
+		sps[i] = c18SP(c.Cfg + 7*i)
 	}
+	o.Classes = append(o.Classes, fmt.Sprintf("cfg:%d", c.Cfg%32))
 	randMu.Lock()
 	old := rand.Reader
 	rr := &replayReader{data: all, chunk: c.Chunk}
@@ -171,7 +191,7 @@ func checkC18Mass(c C18Mass) h.Outcome {
 	o := h.Outcome{NonTrivial: true, Classes: []string{fmt.Sprintf("goroutines:%d", c.Goroutines), fmt.Sprintf("n:%d", c.N)}}
 	sps := make([]*saml2.SAMLServiceProvider, c.SPs)
 	for i := range sps {
-		sps[i] = h.BaseSP().Build()
+		sps[i] = c18SP(c.Offset + 5*i)
 	}
 	randMu.Lock() // nobody substitutes the reader while we draw real randomness
 	defer randMu.Unlock()
@@ -237,6 +257,23 @@ func sqrtf(x float64) float64 {
 		z = (z + x/z) / 2
 	}
 	return z
+}
+
+// TestC18_GridConfigs: every combination of the optional settings x every message kind, twice each.
+func TestC18_GridConfigs(t *testing.T) {
+	var cases []C18Case
+	for cfg := 0; cfg < 32; cfg++ {
+		c := C18Case{SPs: 1, Cfg: cfg, Kinds: []int{1, 2, 3, 1, 2, 3, 0}}
+		for k := range c.Kinds {
+			b := make([]byte, 16)
+			for j := range b {
+				b[j] = byte(cfg*31 + k*17 + j*7 + 1)
+			}
+			c.Blocks = append(c.Blocks, b)
+		}
+		cases = append(cases, c)
+	}
+	h.RunCases(t, "C18", cases, checkC18)
 }
 
 func TestC18_GridMass(t *testing.T) {
